@@ -3,7 +3,7 @@
    compare_status), and of the parts of
    HashFileDB.add / ObjectDB.add / dvc_objects.fs.generic.transfer a transfer goes through.
 
-   source (as of dd1aa82), condensed:
+   source (as of 5bda9b0), condensed:
 
      transfer(src, dest, obj_ids, verify, src_index, dest_index, cache_odb, shallow):
        status = compare_status(src, dest, obj_ids, check_deleted=False, ...)
@@ -58,6 +58,12 @@
        an exception of one upload is routed to on_error and the batch goes on;
        HashFileDB.add, verify=True: afterwards every oid is re-hashed; a mismatching object is
        removed and (fix dd1aa82) routed to on_error.
+
+   Single writer: only the events of this transfer act on the destination.  (Since 5bda9b0
+   _add's error callback does not count a PermissionError as a failure when the destination
+   object is there and write-protected - an object a concurrent writer added meanwhile; with a
+   single writer an object of [new] is absent when its upload fails, so that branch is not
+   reachable here.  Concurrent writers are C16's subject.)
 
    Non-determinism resolved inside the implementation is an explicit argument:
      t_dord   order in which the set dir_ids is iterated,
